@@ -85,6 +85,261 @@ func (*C29List) unexported() C29List      { return C29List{} }
 func (C29Map) Keys(...int) []string       { return nil }
 func (C29Func) Call()                     {}
 
+// ---- one struct type reached through several embedded fields (the visited-set of the breadth-first field and method
+// search is keyed by the UNDERLYING struct up to type identity: a struct met again at the SAME depth must be scanned
+// again - that is how ambiguity is found - while one met again DEEPER must be skipped)
+type C29In struct{ X, Y int }
+type C29Left struct{ C29In }
+type C29Right struct{ C29In } // same underlying type as C29Left
+type C29Diamond struct {      // C29In, X, Y, GetIn, PutIn: twice at depth 2; C29Left / C29Right have identical underlying types at depth 1
+	C29Left
+	C29Right
+}
+type C29LeftA struct {
+	C29In
+	A int
+}
+type C29RightB struct {
+	B int
+	C29In
+}
+type C29DiamondAB struct { // the embedding structs differ, only the struct at depth 2 is met twice
+	C29LeftA
+	C29RightB
+}
+type C29DiamondPtr struct {
+	*C29Left
+	*C29Right
+}
+type C29DiamondMix struct {
+	C29LeftA
+	*C29Right
+}
+type C29P1 struct{ V int }
+type C29P2 struct{ V int } // sibling named type with the identical underlying struct
+type C29P3 struct{ V int }
+type C29Pair struct { // V, M1: ambiguous at depth 1
+	C29P1
+	C29P2
+}
+type C29PairPtr struct {
+	*C29P1
+	*C29P2
+}
+type C29PairMix struct {
+	C29P1
+	*C29P2
+}
+type C29Triple struct {
+	C29P1
+	C29P2
+	C29P3
+}
+type C29ShallowFirst struct { // C29In at depth 1 (X unique), met again at depth 2: the deeper one loses
+	C29In
+	C29Left
+}
+type C29DeepFirst struct { // same, other field order
+	C29Left
+	C29In
+}
+type C29Override struct { // X declared at depth 0 wins; Y stays ambiguous
+	C29Left
+	C29Right
+	X string
+}
+type C29WrapDiamond struct{ C29Diamond } // the ambiguity one level deeper
+type C29WrapPair struct {
+	C29Pair
+	W int
+}
+type C29P1Deep struct{ C29P1 }
+type C29Uneven struct { // V: C29P2.V at depth 1 wins over C29P1Deep.C29P1.V at depth 2
+	C29P1Deep
+	C29P2
+}
+type C29UnevenAmb struct { // V: depth 1 twice (C29P2, C29P3), and once more at depth 2
+	C29P1Deep
+	C29P2
+	C29P3
+}
+type C29Self struct { // self-reference: the reason why the visited-set exists
+	*C29Self
+	S int
+}
+type C29Self2 struct {
+	*C29Self2
+	S int
+}
+type C29SelfPair struct { // S ambiguous; both embedded types are self-referencing
+	C29Self
+	C29Self2
+}
+type C29TwoReaders struct { // Read is promoted from two embedded interfaces: ambiguous; Close is unique
+	io.Reader
+	io.ReadCloser
+}
+
+func (C29In) GetIn() int     { return 0 }
+func (*C29In) PutIn(int)     {}
+func (C29Left) OnlyLeft()    {}
+func (C29P1) M1()            {}
+func (C29P2) M1()            {}
+func (*C29P3) M1()           {}
+func (C29P1) Only1() int     { return 0 }
+func (*C29P2) Only2() int    { return 0 }
+func (C29P1Deep) DeepOnly()  {}
+func (C29Self) SelfM()       {}
+func (*C29Self2) SelfM()     {}
+func (C29Override) GetOver() {}
+
+// ---- struct tags: every pattern of tagged / untagged fields (go/types keeps the tags in a separate slice that may be
+// shorter than the fields; reflect keeps them per field). One tag string everywhere, so that a tag moving to a
+// neighbouring field turns one of these types into another one of the list.
+type C29TagGap struct {
+	A int `k:"v"`
+	B int
+	C int `k:"v"`
+}
+type C29TagGapUnexp struct {
+	a int `k:"v"`
+	C29Int
+	c int `k:"v"`
+}
+type C29TagEmb struct {
+	C29P1  `k:"v"`
+	B      int
+	*C29P2 `k:"v"`
+}
+
+var c29HarnessValues2 = []interface{}{
+	C29In{}, C29Left{}, C29Right{}, C29Diamond{}, &C29Diamond{}, C29LeftA{}, C29RightB{}, C29DiamondAB{}, C29DiamondPtr{}, C29DiamondMix{},
+	C29P1{}, C29P2{}, C29P3{}, C29Pair{}, &C29Pair{}, C29PairPtr{}, C29PairMix{}, C29Triple{}, C29ShallowFirst{}, C29DeepFirst{}, C29Override{},
+	C29WrapDiamond{}, C29WrapPair{}, C29P1Deep{}, C29Uneven{}, C29UnevenAmb{}, C29Self{}, C29Self2{}, C29SelfPair{}, C29TwoReaders{},
+	// unnamed struct types with the same shapes
+	struct {
+		C29Left
+		C29Right
+	}{},
+	struct {
+		C29P1
+		C29P2
+	}{},
+	struct{ V int }{}, // the underlying type of C29P1 / C29P2 / C29P3 itself
+	C29TagGap{}, C29TagGapUnexp{}, C29TagEmb{},
+	// 3 fields, all 8 tag patterns
+	struct{ A, B, C int }{},
+	struct {
+		A int `k:"v"`
+		B int
+		C int
+	}{},
+	struct {
+		A int
+		B int `k:"v"`
+		C int
+	}{},
+	struct {
+		A int
+		B int
+		C int `k:"v"`
+	}{},
+	struct {
+		A int `k:"v"`
+		B int `k:"v"`
+		C int
+	}{},
+	struct {
+		A int `k:"v"`
+		B int
+		C int `k:"v"`
+	}{},
+	struct {
+		A int
+		B int `k:"v"`
+		C int `k:"v"`
+	}{},
+	struct {
+		A int `k:"v"`
+		B int `k:"v"`
+		C int `k:"v"`
+	}{},
+	// 4 fields: gaps of one and two fields, leading and trailing gaps
+	struct {
+		A int `k:"v"`
+		B int
+		C int
+		D int `k:"v"`
+	}{},
+	struct {
+		A int `k:"v"`
+		B int
+		C int `k:"v"`
+		D int
+	}{},
+	struct {
+		A int
+		B int `k:"v"`
+		C int
+		D int `k:"v"`
+	}{},
+	struct {
+		A int `k:"v"`
+		B int `k:"v"`
+		C int
+		D int `k:"v"`
+	}{},
+	struct {
+		A int `k:"v"`
+		B int
+		C int `k:"v"`
+		D int `k:"v"`
+	}{},
+	struct {
+		A int `k:"v"`
+		B int `k:"v"`
+		C int `k:"v"`
+		D int
+	}{},
+	struct {
+		A int
+		B int `k:"v"`
+		C int `k:"v"`
+		D int `k:"v"`
+	}{},
+	// different tag strings, unexported and embedded fields in the gap
+	struct {
+		A int `k:"a"`
+		B int
+		C int `k:"c"`
+	}{},
+	struct {
+		A int `k:"a"`
+		B int `k:"c"`
+		C int
+	}{},
+	struct {
+		A int `k:"a"`
+		b string
+		C int `k:"c"`
+	}{},
+	struct {
+		A int    `k:"a"`
+		b string `k:"c"`
+		C int
+	}{},
+	struct {
+		a int `k:"a"`
+		C29In
+		c int `k:"c"`
+	}{},
+	struct {
+		a     int `k:"a"`
+		C29In `k:"c"`
+		c     int
+	}{},
+}
+
 var c29HarnessValues = []interface{}{
 	C29Inner{}, C29Mid{}, C29Other{}, C29Outer{}, C29Amb{}, &C29Amb{}, C29Deep{}, &C29Deep{}, C29List{}, &C29List{}, C29A{}, C29B{},
 	C29Func(nil), C29Map(nil), C29Chan(nil), C29Array{}, C29Int(0), new(C29Int), C29Str(""), (*C29Iface)(nil), (*C29Stringer)(nil),
@@ -190,6 +445,9 @@ func c29BuildDomain(thorough bool) *c29Domain {
 	d := &c29Domain{paths: c29Paths(thorough), seen: map[r.Type]int{}}
 	// harness types first: they are checked by every tier
 	for _, v := range c29HarnessValues {
+		d.visit(r.TypeOf(v), len(d.paths))
+	}
+	for _, v := range c29HarnessValues2 {
 		d.visit(r.TypeOf(v), len(d.paths))
 	}
 	for pi, p := range d.paths {
